@@ -45,24 +45,27 @@ substrate-fixed = { path = "%s", default-features = false }
 """
 
 
-def native_replay(workdir, ty, f, a, b):
-    """run overflowing_mul / checked_mul on the concrete operands natively in both profiles and compare with exact arithmetic"""
-    signed = ty[0] == "i"
-    want_val, want_ovf = mulcheck.spec_py(a, b, f, signed)
+def native_replay(workdir, ty, f, a, b, op="mul"):
+    """run overflowing_<op> / checked_<op> on the concrete operands natively in both profiles and compare with exact arithmetic"""
+    from vm import widen
+    signed, w = mir.INT_TYPES[ty]
+    if op == "mul":
+        want_val, want_ovf = widen.spec_mul(a, b, f, ty)
+    else:
+        want_val, want_ovf = widen.spec_div(a, b, f, ty)
     d = os.path.join(workdir, "mreplay")
     os.makedirs(os.path.join(d, "src"), exist_ok=True)
     open(os.path.join(d, "Cargo.toml"), "w").write(REPLAY_TOML % core.REPO)
     lock = os.path.join(core.REPO, "Cargo.lock")
     if os.path.exists(lock):
         shutil.copy(lock, os.path.join(d, "Cargo.lock"))
-    fixed = "FixedI128" if signed else "FixedU128"
-    lit = lambda v: ("%d%s" % (v, ty)) if v >= 0 else ("(%d%s)" % (v, ty))
-    if signed and a == -(1 << 127):
-        la = "i128::MIN"
-    else:
-        la = lit(a)
-    lb = "i128::MIN" if (signed and b == -(1 << 127)) else lit(b)
-    lw = "i128::MIN" if (signed and want_val == -(1 << 127)) else lit(want_val)
+    fixed = "Fixed%s%d" % ("I" if signed else "U", w)
+
+    def lit(v):
+        if signed and v == -(1 << (w - 1)):
+            return "%s::MIN" % ty
+        return ("%d%s" % (v, ty)) if v >= 0 else ("(%d%s)" % (v, ty))
+    lw = lit(want_val)
     open(os.path.join(d, "src", "lib.rs"), "w").write("""
 #[test]
 fn replay() {
@@ -70,11 +73,11 @@ fn replay() {
     type F = %s<U%d>;
     let x = F::from_bits(%s);
     let y = F::from_bits(%s);
-    let (v, o) = x.overflowing_mul(y);
-    assert_eq!((v.to_bits(), o), (%s, %s), "overflowing_mul is floor(a*b/2^f) mod 2^128 with the exact flag");
-    assert_eq!(x.checked_mul(y).map(|z| z.to_bits()), if %s { None } else { Some(%s) }, "checked_mul");
+    let (v, o) = x.overflowing_%s(y);
+    assert_eq!((v.to_bits(), o), (%s, %s), "overflowing_%s is the exact result mod 2^W with the exact flag");
+    assert_eq!(x.checked_%s(y).map(|z| z.to_bits()), if %s { None } else { Some(%s) }, "checked_%s");
 }
-""" % (f, fixed, fixed, f, la, lb, lw, "true" if want_ovf else "false", "true" if want_ovf else "false", lw))
+""" % (f, fixed, fixed, f, lit(a), lit(b), op, lw, "true" if want_ovf else "false", op, op, "true" if want_ovf else "false", lw, op))
     out = {}
     for prof in ("dev", "release"):
         env = core.playback_env(prof == "release")
@@ -92,10 +95,8 @@ fn replay() {
 
 
 def fracs(tier, seed):
-    if tier == "thorough":
-        return list(range(1, 129))
-    rnd = random.Random(seed + 128)
-    return sorted(set([1, 2, 63, 64, 65, 127, 128] + [rnd.randrange(3, 127) for _ in range(6)]))
+    """fractional-bit counts of the 128-bit product obligations: every count in both tiers (0.3 s each)"""
+    return list(range(1, 129))
 
 
 def run(prop, tier, seed, workdir, log):
@@ -226,6 +227,105 @@ def run(prop, tier, seed, workdir, log):
             res["inconclusive"].append(("m_mul_%s" % ty, "solver refuted %d obligation(s) (%s) but no operand pair reproduced natively" % (len(refuted), refuted[0]["why"])))
         elif not refuted and cands and not state["reproduced"]:
             res["inconclusive"].append(("m_mul_%s" % ty, "concrete MIR execution disagreed with the specification but did not reproduce natively"))
+    # ---------------- widening kernels (u8..u64, i8..i64): every fractional-bit count, all operands
+    from vm import widen
+    for ty in ("u8", "i8", "u16", "i16", "u32", "i32", "u64", "i64", "u128", "i128"):
+        w = mir.INT_TYPES[ty][1]
+        state = {"reproduced": {}, "replayed": 0}
+
+        def try_w(op, f, a, b, origin):
+            if state["reproduced"].get(op) or state["replayed"] >= 6 or (op == "div" and b == 0):
+                return bool(state["reproduced"].get(op))
+            lo, hi = mir.ty_range(ty)
+            if not (lo <= a <= hi and lo <= b <= hi):
+                return False
+            state["replayed"] += 1
+            out, want = native_replay(workdir, ty, f, a, b, op)
+            rep = any(v[0] for v in out.values())
+            log("engine M: candidate %s %s f=%d a=%d b=%d (%s): native %s" % (op, ty, f, a, b, origin[:70], {k: v[0] for k, v in out.items()}))
+            if rep:
+                state["reproduced"][op] = True
+                rdir = os.path.join(core.VERIF, "replays", prop)
+                os.makedirs(rdir, exist_ok=True)
+                rpath = os.path.join(rdir, "m_%s_%s_f%d-%s.json" % (op, ty, f, core.sha("%d,%d" % (a, b))))
+                json.dump({"engine": "mir-smt", "op": op, "property": prop, "type": ty, "frac_nbits": f, "a": str(a), "b": str(b),
+                           "expected": [str(want[0]), want[1]], "origin": origin,
+                           "native": {k: {"reproduced": v[0], "message": v[1]} for k, v in out.items()}}, open(rpath, "w"), indent=1)
+                res["violations"].append(os.path.relpath(rpath, core.VERIF))
+            return rep
+        if w < 128:
+            try:
+                n, bad = widen.validate_translator(funcs, ty, seed + 11)
+                log("engine M: %s widening kernels: translator validation on %d concrete runs: %d mismatches" % (ty, n, len(bad)))
+                for (op, x, y, f, got, want, panics) in bad[:4]:
+                    try_w(op, f, x, y, "concrete execution of the MIR disagrees with exact arithmetic (got %s, want %s, panics %s)" % (got, want, panics))
+            except mir.Unsupported as e:
+                res["inconclusive"].append(("engineM_%s_validation" % ty, "unsupported MIR construct: %s" % e))
+                continue
+        # 128-bit: the product is the two-stage obligation above; the quotient's glue around the abstracted Knuth-D routine
+        kernels = (("mul", widen.build_mul), ("div", widen.build_div)) if w < 128 else (("div", widen.build_div128),)
+        for op, builder in kernels:
+            refuted_n = 0
+            for f in range(0, w + 1):
+                name = "m_%s_%s_f%d" % (op, ty, f)
+                try:
+                    t0 = time.time()
+                    ctx, qs, cl = builder(funcs, ty, f)
+                    called.update(cl)
+                    sc = mulcheck.smt_script(ctx, qs, models=True, bv=True)
+                    rendering = "bv"
+                    if sc is None:
+                        sc = mulcheck.smt_script(ctx, qs, models=True)
+                        rendering = "int"
+                    out1, _ = mulcheck.run_solver(sc, "cvc5", 20000)
+                    ans, mods = mulcheck.parse_answers(out1)
+                    ans_z = []
+                    if f in (0, 1, w // 2, w - 1, w):
+                        outz, _ = mulcheck.run_solver(sc, "/usr/bin/z3", 20000)
+                        ans_z, _mz = mulcheck.parse_answers(outz)
+                    dt = time.time() - t0
+                    res["solver_s"] += dt
+                    res["queries"] += len(qs) * (2 if ans_z else 1)
+                    verdict, why = "ok", ""
+                    if len(ans) != len(qs):
+                        verdict, why = "inconclusive", "solver output not understood: %s" % out1[-200:]
+                    elif ans_z and len(ans_z) == len(ans) and any(x in ("sat", "unsat") and y in ("sat", "unsat") and x != y for x, y in zip(ans, ans_z)):
+                        verdict, why = "inconclusive", "cvc5 and z3 disagree: %s vs %s" % (ans, ans_z)
+                    else:
+                        for (q, a_, m_) in zip(qs, ans, mods):
+                            if a_ == "unsat":
+                                continue
+                            if a_ == "sat":
+                                verdict, why = "refuted", q[0]
+                                refuted_n += 1
+                                if m_:
+                                    try_w(op, f, m_[0], m_[1], "solver model for '%s'" % q[0])
+                                continue
+                            verdict, why = "inconclusive", "%s: %s" % (q[0], a_)
+                            break
+                    res["results"].append({"name": name, "verdict": verdict, "why": why, "queries": len(qs), "rendering": rendering, "solver_s": round(dt, 2)})
+                    if verdict != "ok" and len(res["samples"]) < 8:
+                        res["samples"].append({"obligation": name, "type": ty, "frac_nbits": f, "queries": [q[0] for q in qs][:6], "verdict": verdict, "answers": ans})
+                    if verdict == "inconclusive":
+                        res["inconclusive"].append((name, why))
+                except mir.Unsupported as e:
+                    res["results"].append({"name": name, "verdict": "inconclusive", "why": "unsupported MIR construct: %s" % e})
+                    res["inconclusive"].append((name, "unsupported MIR construct: %s" % e))
+                except subprocess.TimeoutExpired:
+                    res["results"].append({"name": name, "verdict": "inconclusive", "why": "solver time-out"})
+                    res["inconclusive"].append((name, "solver time-out"))
+            if refuted_n and not state["reproduced"].get(op):
+                # abstract quotient/product models can be spurious: try structured operands on the refuted counts
+                lo, hi = mir.ty_range(ty)
+                for r in [r for r in res["results"] if r["verdict"] == "refuted" and r["name"].startswith("m_%s_%s_f" % (op, ty))][:3]:
+                    f = int(r["name"].rsplit("_f", 1)[1])
+                    for (x, y) in ((lo, -1 if lo < 0 else 1), (hi, hi), (lo, lo), (hi, 1), (lo, 1), (1, hi), (hi, 2), (lo + 1, -1 if lo < 0 else 3)):
+                        if try_w(op, f, x, y, "structured operands for refuted obligation '%s'" % r["why"]):
+                            break
+                    if state["reproduced"].get(op):
+                        break
+                if not state["reproduced"].get(op):
+                    res["inconclusive"].append(("m_%s_%s" % (op, ty), "solver refuted %d obligation(s) but no operand pair reproduced natively" % refuted_n))
     res["functions"] = sorted(called)
     return res
 
@@ -234,7 +334,7 @@ def replay(rp, log):
     ws = os.path.join(core.WORK, "mreplay-%d" % os.getpid())
     os.makedirs(ws, exist_ok=True)
     try:
-        out, _want = native_replay(ws, rp["type"], int(rp["frac_nbits"]), int(rp["a"]), int(rp["b"]))
+        out, _want = native_replay(ws, rp["type"], int(rp["frac_nbits"]), int(rp["a"]), int(rp["b"]), rp.get("op", "mul"))
         rep = False
         for prof, (failed, msg) in out.items():
             log("replay profile=%s reproduced=%s %s" % (prof, failed, msg))
